@@ -292,6 +292,18 @@ CLAIMED["C25"] = dict(
         "safety of the abstracted function is assumed. " + TRUST,
    design="DESIGN.md §4 C25")
 
+CLAIMED["C19"] = dict(
+   text="Proof-level guard obligations on the real refill loops (the rounds themselves - store listing, callbacks - abstracted; inductive invariants tie the loop "
+        "variables to what the previous round returned): Filer.doListValidEntries (refill after expired entries) and Filer.StreamListDirectoryEntries (refill after "
+        "entries that did not match a pattern) pass the caller's start name, inclusive flag and limit to the first round unchanged, and every further round continues "
+        "exclusively after the last name the previous round reached, asks for exactly the number of entries still missing, and only happens after a successful round; "
+        "on success nothing is missing any more; FilerStoreWrapper.prefixFilterEntries continues every store listing exclusively after the name the previous store "
+        "listing returned.",
+   note="Order, exactness and duplicate-freeness of the rounds themselves (the store's ListDirectoryEntries - the seeded change C19-m2 lives in the leveldb2 store -, "
+        "doListDirectoryEntries' expiry callback, filepath.Match) are assumed; ListDirectoryEntries' limit+1 / hasMore arithmetic and the last-delivered-name question "
+        "when prefixFilterEntries stops in the middle of a page are not decided. One defect repaired (refill restarted after the first page: non-termination). " + TRUST,
+   design="DESIGN.md §4 C19")
+
 NA = {
  "C03":"crash-point property over byte-level truncation of two persistent files; no per-function contract within reach decides it (DESIGN §4 C03)",
  "C10":"needs inductive tree predicates and cardinality reasoning over interface-typed nodes in pointer maps with randomised picking (DESIGN §4 C10)",
